@@ -715,3 +715,154 @@ func (c *Ctx) tok12() {
 	col.done(1, "the insert is dominated by a failed lookup of the same identifier")
 	idc.done(1, "identifier derived from the advancing counter, mask and space")
 }
+
+// ---- RCH-1: the read routine never waits for a state only it can produce ----
+
+func init() {
+	register("RCH-1", []string{"RCH-1"}, func(c *Ctx, _ map[string]bool) { c.rch1() })
+	register("TOK-13", []string{"TOK-13"}, func(c *Ctx, _ map[string]bool) { c.tok13() })
+}
+
+func (c *Ctx) rch1() {
+	rs := c.Fn("RCH-1", "(*Client).readSlices")
+	if rs == nil {
+		return
+	}
+	// pending-waiters: functions with a CFG cycle that contains a receive from writeSem
+	waiters := map[*ssa.Function]bool{}
+	for _, fn := range c.funcs {
+		for _, p := range c.Paths("RCH-1", fn) {
+			if p.End != pathx.KLoopBack {
+				continue
+			}
+			for _, e := range p.Events {
+				if e.Kind == pathx.KRecv && tokenOf(e.Chan) == tkWrite {
+					waiters[fn] = true
+				}
+			}
+		}
+	}
+	c.S.Floor("RCH-1", "functions that wait for a pending connect (cycle through <-writeSem)", len(waiters), 1)
+	reach := c.reachableFrom(rs)
+	n := 0
+	callers := c.callers()
+	for w := range waiters {
+		key := "RCH-1|readSlices↛" + load.FuncName(w)
+		if !reach[w] {
+			c.S.OK("RCH-1", key, c.P.Pos(w.Pos()), "(*Client).readSlices", load.FuncName(w)+" (waits while writeSem holds connPending) is not reachable from the read routine", true)
+			continue
+		}
+		// report each call chain readSlices → … → waiter
+		var chain func(f *ssa.Function, seen map[*ssa.Function]bool) []string
+		chain = func(f *ssa.Function, seen map[*ssa.Function]bool) []string {
+			if f == rs {
+				return []string{load.FuncName(f)}
+			}
+			if seen[f] {
+				return nil
+			}
+			seen[f] = true
+			for _, g := range callers[f] {
+				if reach[g] {
+					if ch := chain(g, seen); ch != nil {
+						return append(ch, load.FuncName(f))
+					}
+				}
+			}
+			return nil
+		}
+		for _, g := range callers[w] {
+			if !reach[g] {
+				continue
+			}
+			n++
+			ch := chain(g, map[*ssa.Function]bool{})
+			c.S.Bad("RCH-1", key+"|via("+load.FuncName(g)+")", c.P.Pos(g.Pos()), load.FuncName(g),
+				"the read routine can call "+load.FuncName(w)+", which waits as long as writeSem holds connPending; after another goroutine's failed write only the read routine itself can replace connPending, so ReadSlices would wait for itself and never redial", append(ch, load.FuncName(w)))
+		}
+	}
+	// every request-side writer may wait (documented); nothing to check there
+	_ = n
+	c.S.Count("functions_reachable_from_readSlices", len(reach))
+}
+
+// ---- TOK-13: a response is applied to the request it belongs to ----
+
+func (c *Ctx) tok13() {
+	hs := c.handlers("TOK-13")
+	endTx := c.Fn("TOK-13", "(*unorderedTxs).endTx")
+	if endTx == nil {
+		return
+	}
+	for _, typ := range []string{"typeSUBACK", "typeUNSUBACK"} {
+		fn := hs[typ]
+		if fn == nil {
+			c.S.Unknown("TOK-13", "TOK-13|anchor|"+typ, "", "", "no handler for "+typ)
+			continue
+		}
+		a := c.acc("TOK-13", fn, "answer-goes-to-the-callback-of-the-identifier-in-this-packet")
+		for _, p := range c.Paths("TOK-13", fn) {
+			var ends []int
+			for i := range p.Events {
+				if isCallTo(&p.Events[i], endTx) {
+					ends = append(ends, i)
+				}
+			}
+			if len(ends) > 1 {
+				a.fail(p, ends[1], "endTx is called twice: the second call removes another request's callback")
+				continue
+			}
+			if len(ends) == 0 {
+				continue
+			}
+			e := &p.Events[ends[0]]
+			if len(e.Args) != 2 || !parsedID(e.Args[1]) {
+				a.fail(p, ends[0], "endTx is called with %s, not with the identifier parsed from this packet", Expr(e.Args[len(e.Args)-1]))
+				continue
+			}
+			done := pathx.ResultAt(e.Result, 0)
+			filters := pathx.ResultAt(e.Result, 1)
+			ok := true
+			for i := ends[0]; i < len(p.Events); i++ {
+				x := &p.Events[i]
+				if (x.Kind == pathx.KSend || x.Kind == pathx.KClose) && x.Chan != done {
+					if tokenOf(x.Chan) == "" {
+						ok = false
+						a.fail(p, i, "a channel other than the one returned by this endTx call is answered")
+					}
+				}
+			}
+			// SubscribeError elements come from this call's filters
+			if typ == "typeSUBACK" {
+				for i := ends[0]; i < len(p.Events); i++ {
+					x := &p.Events[i]
+					if isAppendTo(x, "github.com/pascaldekloe/mqtt.SubscribeError") {
+						_, el := appendLiteral(p, i)
+						for _, v := range el {
+							if base, ok2 := indexBaseOf(v); ok2 && base != filters {
+								ok = false
+								a.fail(p, i, "the failed filters are taken from %s, not from the request this SUBACK answers", Expr(base))
+							}
+						}
+					}
+				}
+			}
+			if ok {
+				a.pass()
+			}
+		}
+		a.done(1, "one endTx per packet, keyed by the parsed identifier; only its channel is answered, with its own filters")
+	}
+}
+
+func indexBaseOf(v ssa.Value) (ssa.Value, bool) {
+	u, ok := stripConv(v).(*ssa.UnOp)
+	if !ok || u.Op != token.MUL {
+		return nil, false
+	}
+	ia, ok := u.X.(*ssa.IndexAddr)
+	if !ok {
+		return nil, false
+	}
+	return ia.X, true
+}
